@@ -161,6 +161,16 @@ def was(old, x):
     return getattr(old, 'snaps__', {}).get(id(getattr(x, 'orig__', x)), x)
 
 
+def origin(lst, i):
+    """Proof device (symbolic reading only): source loop-variable values of element i of an accumulated list."""
+    raise NotImplementedError('origin() has no concrete reading; contracts using it are native=False')
+
+
+def by_lemma(fn, *args):
+    """Use an instance of a separately proved lemma (concrete reading: just evaluate it)."""
+    return bool(fn(*args))
+
+
 def same_obj(x, y):
     """x and y are the same container object, where y may be a snapshot copy carrying its origin's identity."""
     return getattr(x, 'orig_id__', id(x)) == getattr(y, 'orig_id__', id(y))
@@ -204,5 +214,5 @@ class Old:
 
 
 NATIVE_HELPERS = dict(implies=implies, iff=iff, index_of=index_of, order_of=order_of, key_at=key_at,
-                      is_fresh=is_fresh, same_elems=same_elems, same_dict=same_dict, typeof=typeof, same=same, same_obj=same_obj, now=now, was=was,
+                      is_fresh=is_fresh, same_elems=same_elems, same_dict=same_dict, typeof=typeof, same=same, same_obj=same_obj, now=now, was=was, origin=origin, by_lemma=by_lemma,
                       is_none=is_none)
